@@ -53,10 +53,12 @@ def jobs(tier):
         models=BS+['sub-parsers cut to contracts through own registry tables'],functions=['_vorbis_unpack_books','vorbis_info_clear'],bounds='any packet <= 120 bytes; every section count <= %d (uniform loops)'%cn,weight=2))
     return J
 CLAIM={'text':'Assume-guarantee chain of bounded model checks on the real packet-level decoder: header parsers on arbitrary input as producers of validity predicates (codebook, residue; comment via C16) with leak checks on every reject path, the lattice-size kernel incl. dim==0, the audio packet prologue against the specification for every packet, decoder init/retry/clear histories, and the accumulator step (vorbis_synthesis_blockin/pcmout/read) as an inductive step from every valid state.',
- 'note':'Trusted: M-bitsrc over-approximates packet contents for parsers; M-bitpack for the prologue; contract stubs at the cuts listed per harness; allocation failure out of scope. Bounds per job (entries <= 3-4, partitions <= 4-8, packets <= 19-24 bytes...). Also: floor-0 set-up parser (P-floor0) and floor-0 packet decode (K-floor0: book selection stays inside the books of that floor, vector request = order+dim+1 floats, D21 amplitude scale). Mapping set-up parser (P-map); the header state machine for header packets in any order with any flags (S-headerin); top level of the setup parser with clean-up on every reject path (P-setup). NOT yet covered (planned in DESIGN section 3 C02, not built): floor1 parser (harness written, does not finish), vorbis_book_init_decode on symbolic length lists (concrete books: C01 huff-decode), floor/residue/mapping inverse kernels, stack budget (alloca) monitor. The claim is therefore memory safety and termination of the listed units only, not of the whole packet API.'}
+ 'note':'Trusted: M-bitsrc over-approximates packet contents for parsers; M-bitpack for the prologue; contract stubs at the cuts listed per harness; allocation failure out of scope. Bounds per job (entries <= 3-4, partitions <= 4-8, packets <= 19-24 bytes...). Also: floor-0 set-up parser (P-floor0) and floor-0 packet decode (K-floor0: book selection stays inside the books of that floor, vector request = order+dim+1 floats, D21 amplitude scale). Mapping set-up parser (P-map); the header state machine for header packets in any order with any flags (S-headerin); half-rate switch refused for 64-sample short blocks (hs-flag); residue partition walk, VQ vector decoders and Huffman decode stay inside their vectors/tables (K-res, K-bookvec, huff-decode: shared with C01); top level of the setup parser with clean-up on every reject path (P-setup). NOT yet covered (planned in DESIGN section 3 C02, not built): floor1 parser (harness written, does not finish), vorbis_book_init_decode on symbolic length lists (concrete books: C01 huff-decode), floor/residue/mapping inverse kernels, stack budget (alloca) monitor. The claim is therefore memory safety and termination of the listed units only, not of the whole packet API.'}
 import importlib.util as _u, os as _o
 def _blk():
     p=_o.path.join(_o.path.dirname(_o.path.dirname(_o.path.abspath(__file__))),'block','jobs_common.py'); sp=_u.spec_from_file_location('blk',p); m=_u.module_from_spec(sp); sp.loader.exec_module(m); return m
 _jobs0=jobs
 def jobs(tier):
-    return _jobs0(tier)+[j for j in _blk().blockin_jobs(tier) if 'data' not in j.name][:2 if tier=='quick' else 99]
+    import sys; sys.path.insert(0,_o.path.dirname(_o.path.dirname(_o.path.abspath(__file__))))
+    from jobs_lib import other as _other
+    return _jobs0(tier)+[j for j in _blk().blockin_jobs(tier) if 'data' not in j.name][:2 if tier=='quick' else 99]+_other('C20',tier,lambda j:j.name=='hs-flag')+_other('C01',tier,lambda j:j.name.startswith('K-res') or j.name.startswith('K-bookvec') or j.name.startswith('huff-decode'))
